@@ -10,7 +10,7 @@ from typing import List
 import billiard.pool as bp
 import billiard.common as bc
 from billiard.exceptions import SoftTimeLimitExceeded
-from harness.hbase import fail, tier, Prune, trace, PART, NPART, realize
+from harness.hbase import fail, tier, Prune, trace, PART, NPART, realize, NDCode, CODEMAX, THOROUGH
 from harness import workerh as H
 
 NT = tier(3, 4)                # tasks in the script
@@ -197,12 +197,18 @@ def h_unpicklable(pos: int, maxtasks: int, consumed: int) -> bool:
         return True
 
 
-def h_memlimit(kinds: List[int], maxtasks: int, mem: List[int]) -> bool:
+MEMS = (-1, 50, 51, 100) if not THOROUGH else (-1, 0, 10, 50, 51, 100)
+
+
+def h_memlimit(code: int) -> bool:
     """
-    pre: len(kinds) == NT and all(0 <= k <= 3 for k in kinds) and 0 <= maxtasks <= NT
-    pre: len(mem) == NT and all(-1 <= m <= 100 for m in mem)
+    pre: 0 <= code < CODEMAX
     post: _
     """
+    nd = NDCode(code)
+    kinds = [nd.draw(0, 2)] + [0] * (NT - 1)          # the memory check follows every completed task, whatever its outcome
+    maxtasks = NT * nd.draw(0, 1)
+    mem = [MEMS[nd.draw(0, len(MEMS) - 1)] for _ in range(NT)]
     try:
         return _protocol(kinds, maxtasks, None, None, NT, mem, None)
     except Prune:
